@@ -27,3 +27,4 @@ pub fn x_btree_symkey() {
     core::mem::forget(m);
 }
 
+
